@@ -49,7 +49,7 @@ func checkC13(c *Ctx) {
 	}, func(o *coreObl) (string, bool) { return "R13.6", o.Rule == "R09.2" })
 	c.borrow("C14", func() { c.c14InitRegistration() }, func(o *coreObl) (string, bool) { return "R13.6", o.Rule == "R14.3" })
 	c.borrow("C14", func() { c.c14Register() }, func(o *coreObl) (string, bool) {
-		return "R13.6", o.Rule == "R14.3" && o.Construct == "GobRegister" && (o.Status == "discharged" || strings.HasPrefix(o.What, "not-registered-with-gob") || strings.HasPrefix(o.What, "no-dedupe-test") || strings.HasPrefix(o.What, "dedupe-untested") || strings.HasPrefix(o.What, "unpaired-update"))
+		return "R13.6", o.Rule == "R14.3" && o.Construct == "GobRegister" && (o.Status == "discharged" || strings.HasPrefix(o.What, "not-registered-with-gob") || strings.HasPrefix(o.What, "no-dedupe-test") || strings.HasPrefix(o.What, "dedupe-untested") || strings.HasPrefix(o.What, "unpaired-update") || strings.HasPrefix(o.What, "registration-stops-early"))
 	})
 	for _, b := range backends {
 		// R13.1 -------------------------------------------------------------------------------
@@ -696,6 +696,30 @@ func (c *Ctx) c13Counts(b BK, decodeTarget types.Object) {
 			if stores != incs || stores > 1 {
 				r.Bad("R13.3", rname, "restore-count", c.Pos(g.begin.Pos), fmt.Sprintf("iteration stores %d records and increments the counter %d times", stores, incs), shortTrace(p))
 				bad = true
+			}
+		}
+	}
+	// a record that fails to decode ends the restore (error returned, or the loop left at the end of the input): going on to the
+	// next record after a failure spins for ever on a persistent reader error and hides a broken dump
+	for _, p := range run.paths {
+		if bad {
+			break
+		}
+		for i, ev := range p.Events {
+			if ev.Kind != pw.EvCall || !strings.HasSuffix(ev.Role, "gob.Decoder.Decode") || len(ev.Results) != 1 || nilTri(p, ev.Results[0]) != triFalse {
+				continue
+			}
+			for _, later := range p.Events[i+1:] {
+				if later.Kind == pw.EvReturn {
+					break
+				}
+				if later.Kind == pw.EvLoopEnd {
+					if later.Note != "break" {
+						r.Bad("R13.3", rname, "decode-error-swallowed", c.Pos(ev.Pos), "after a record failed to decode the loop goes on to the next record instead of ending the restore", shortTrace(p))
+						bad = true
+					}
+					break
+				}
 			}
 		}
 	}
